@@ -267,6 +267,69 @@ def d2(cx: Cx, ob: Ob) -> None:
             continue
         if a != (("attr", me, "prefix"), ("attr", me, "identifier")) or b != (("attr", other, "prefix"), ("attr", other, "identifier")):
             ob.violate(lt.qualname, lt.where, f"__lt__ compares `{show(t[2])[:40]}` < `{show(t[3])[:40]}`; it must be the lexicographic order on (prefix, identifier) of self vs other", detail="pair")
+    derived_orderings(cx, ob)
+
+
+def derived_orderings(cx: Cx, ob: Ob) -> None:
+    """``__le__`` / ``__gt__`` / ``__ge__`` defined next to ``__lt__`` must denote <=, > and >= of the same order:
+    each is read as one of the four relations (a comparison of the two pairs, ``self < other`` / ``other < self``
+    or their negations, optionally ``or self == other``) and compared with its name.  Python prefers the REFLECTED
+    method of the right operand when its class is a subclass of the left operand's, so a wrong ``__gt__`` changes
+    the result of ``a < b`` itself for mixed Reference / NamedReference operands."""
+    want = {"__le__": "LE", "__gt__": "GT", "__ge__": "GE", "__lt__": "LT"}
+    flip = {"LT": "GT", "GT": "LT", "LE": "GE", "GE": "LE"}
+    neg = {"LT": "GE", "GE": "LT", "GT": "LE", "LE": "GT"}
+    ops = {"<": "LT", "<=": "LE", ">": "GT", ">=": "GE"}
+    for ci in cx.model.classes.values():
+        if ci.qualname != REF and not cx.model.is_subclass(ci.name, "Reference"):
+            continue
+        for mname in ("__le__", "__gt__", "__ge__"):
+            m = ci.methods.get(mname)
+            if m is None or len(m.params) < 2:
+                continue
+            me, other = ("param", m.params[0].name), ("param", m.params[1].name)
+
+            def side(x):
+                if x == me or any(y == me for y in subterms(x)) and not any(y == other for y in subterms(x)):
+                    return "S"
+                if x == other or any(y == other for y in subterms(x)) and not any(y == me for y in subterms(x)):
+                    return "O"
+                return None
+
+            def rel(t):
+                if op(t) == "cmp" and t[1] in ops:
+                    a, b = side(t[2]), side(t[3])
+                    if (a, b) == ("S", "O"):
+                        return ops[t[1]]
+                    if (a, b) == ("O", "S"):
+                        return flip[ops[t[1]]]
+                    return None
+                if op(t) == "not":
+                    r = rel(t[1])
+                    return neg[r] if r else None
+                if op(t) == "or" and len(t[1]) == 2:
+                    rs = [rel(x) for x in t[1]]
+                    eqs = [op(x) == "cmp" and x[1] == "==" and {side(x[2]), side(x[3])} == {"S", "O"} for x in t[1]]
+                    for r, e in ((rs[0], eqs[1]), (rs[1], eqs[0])):
+                        if r in ("LT", "GT") and e:
+                            return {"LT": "LE", "GT": "GE"}[r]
+                return None
+
+            for t, ctx in cx.summary(m, ob.id).returns():
+                if show(t).endswith("NotImplemented"):
+                    continue
+                got = rel(t)
+                ob.site(f"{m.where} {m.qualname}", f"{show(t)[:50]} reads as {got}")
+                if got is None:
+                    ob.undecide(f"{ci.name}.{mname} returns `{show(t)[:50]}`, not recognised as an order relation of the two operands")
+                elif got != want[mname]:
+                    ob.violate(
+                        m.qualname,
+                        m.where,
+                        f"{ci.name}.{mname} computes `{show(t)[:50]}`, which is the relation {got}, not {want[mname]}: equal references compare as greater, and because the reflected method of a subclass operand is tried first, `Reference(x) < NamedReference(x)` itself changes",
+                        witness="Reference('a','1') < NamedReference('a','1','n') is True although neither pair is smaller",
+                        detail=f"derived-order:{mname}={got}",
+                    )
 
 
 def _memo_return(cx: Cx, ob: Ob, ci, m, s, t, ctx) -> bool:
